@@ -28,6 +28,27 @@ func h06Sibling(r CharRecipe, how int) CharRecipe {
 		}
 	case 4:
 		s.RequireSets = []string{strings.Join(r.RequireSets, " ")}
+	case 5, 6:
+		// the same number of required sets with the same character counts, but
+		// another overlap pattern: pairwise disjoint (5) or nested (6) - a value
+		// remembered under a key made of sizes only would be handed to r
+		const pool = "#$%&()+=<>[]{}^~|;?/"
+		s.RequireSets = nil
+		at := 0
+		for _, q := range r.RequireSets {
+			n := 0
+			for range q {
+				n++
+			}
+			if how == 6 {
+				at = 0
+			}
+			if at+n > len(pool) {
+				return r
+			}
+			s.RequireSets = append(s.RequireSets, pool[at:at+n])
+			at += n
+		}
 	}
 	return s
 }
@@ -46,7 +67,7 @@ func H06c() {
 		vReach("empty-alphabet")
 		return
 	}
-	if prime := vChoice("prime", vParam("primes", 5)); prime > 0 && len(r.RequireSets) > 0 {
+	if prime := vChoice("prime", vParam("primes", 7)); prime > 0 && len(r.RequireSets) > 0 {
 		sib := h06Sibling(r, prime)
 		_ = sib.Entropy()
 		vReach("primed")
